@@ -102,17 +102,22 @@ def matrix(kind, tier, seed):
         WI = {"orth": [[1, 0], [0, 1]], "acute": [[2, -1], [-1, 2]], "obtuse": [[2, 1], [1, 2]], "pyobt": [[3, 4], [4, 3]],
               "skew": [[3, -1], [-1, 2]]}
         reps = 1 if q else 4
+        cones = list(WI)
         for rep in range(reps):
-            for cn in (["orth", "acute", "obtuse"] if q else list(WI)):
-                o = ("Wint", WI[cn])
-                M.append(_c("PaVeBaGP", "VVD2a", order=o, eps=1.0, type="IH", script=dict(kind="rect", G=4), max_steps=25))
-                M.append(_c("VOGP", "VVD2a", order=o, eps=1.0, script=dict(kind="rect", G=4), max_steps=25))
-                for e in (0.5, 1.0, 2.0, 1.0, 0.5, 2.0, 1.0, 0.5):
-                    M.append(_c("PaVeBa", "VVD2a", order=o, eps=e, script=dict(kind="ball", G=4), max_steps=25))
+            # the PaVeBa family has three separate implementations of the same phases: each gets its own runs
+            for k in range(24):
+                o = ("Wint", WI[cones[k % (3 if q else 5)]])
+                e = (0.5, 1.0, 2.0, 0.25)[k % 4]
+                M.append(_c("PaVeBaPartialGP", "VVD2a", order=o, eps=e, script=dict(kind="rect", G=4), max_steps=30))
+                M.append(_c("PaVeBa", "VVD2a", order=o, eps=e, script=dict(kind="ball", G=4), max_steps=25))
+                if k < 12:
+                    M.append(_c("PaVeBaGP", "VVD2a", order=o, eps=e, type="IH", script=dict(kind="rect", G=4), max_steps=25))
+                    M.append(_c("VOGP", "VVD2a", order=o, eps=e, script=dict(kind="rect", G=4), max_steps=25))
+                if k < 8:
+                    M.append(_c("EpsilonPAL", "VVD2a" if k % 2 else "VVD3a", eps=e, script=dict(kind="rect", G=4 if k % 2 else 3), max_steps=25))
             M.append(_c("PaVeBaGP", "VVD2a", order=("Wint", WI["obtuse"]), eps=1.0, type="DE", script=dict(kind="ell", G=4), max_steps=12))
-            M.append(_c("PaVeBaPartialGP", "VVD2a", order=("Wint", WI["acute"]), eps=1.0, script=dict(kind="rect", G=4), max_steps=25))
-            M.append(_c("EpsilonPAL", "VVD2a", eps=1.0, script=dict(kind="rect", G=4), max_steps=25))
-            M.append(_c("EpsilonPAL", "VVD3a", eps=1.0, script=dict(kind="rect", G=3), max_steps=25))
+            M.append(_c("PaVeBaGP", "VVD2a", order=("Wint", WI["acute"]), eps=0.5, type="DE", script=dict(kind="ell", G=4), max_steps=12))
+            M.append(_c("PaVeBaPartialGP", "VVD2a", order=("Wint", WI["obtuse"]), eps=1.0, confidence_type="hyperellipsoid", script=dict(kind="ell", G=4), max_steps=10))
             for _ in range(30):
                 M.append(_c("Auer", "VVD2a", eps=1.0, empirical=True, script=dict(kind="auer", G=4), max_steps=25))
             M.append(_c("Auer", "VVD3a", eps=1.0, empirical=True, script=dict(kind="auer", G=3), max_steps=25))
@@ -120,6 +125,12 @@ def matrix(kind, tier, seed):
                 M.append(_c("Auer", "VVD2a", eps=1.0, empirical=True, script=dict(kind="auer", G=4), max_steps=25, seed=10))
             M.append(_c("VOGP", "VVD2tiny", order=("Wint", WI["orth"]), eps=1.0, script=dict(kind="rect", G=2), max_steps=25))
             M.append(_c("PaVeBaGP", "VVD2tiny", order=("Wint", WI["acute"]), eps=0.0, type="IH", script=dict(kind="rect", G=2), max_steps=25))
+            # batches larger than one on scripted posteriors: late-run states with few candidates and a non-empty P
+            M.append(_c("VOGP", "VVD2a", order=("Wint", WI["orth"]), eps=1.0, batch=3, script=dict(kind="rect", G=4), max_steps=25))
+            M.append(_c("VOGP", "VVD2a", order=("Wint", WI["acute"]), eps=0.5, batch=4, script=dict(kind="rect", G=4), max_steps=25))
+            M.append(_c("EpsilonPAL", "VVD2a", eps=0.5, batch=3, script=dict(kind="rect", G=4), max_steps=25))
+            M.append(_c("PaVeBaGP", "VVD2a", order=("Wint", WI["orth"]), eps=0.5, type="IH", batch=3, script=dict(kind="rect", G=4), max_steps=25))
+            M.append(_c("PaVeBaPartialGP", "VVD2a", order=("Wint", WI["orth"]), eps=0.5, batch=3, script=dict(kind="rect", G=4), max_steps=25))
     if kind == "run":
         # C06: batch sizes larger than the active set, budgets, facet count != objective count, fixed rounds
         M.append(_c("VOGP", "VVD2tiny", order=("orth", 2), eps=0.3, contraction=16, batch=5, max_steps=10))
@@ -157,10 +168,24 @@ def matrix(kind, tier, seed):
         M.append(_c("Auer", "Test", eps=0.01, noise=0.1, contraction=16, max_steps=(15 if q else 40)))
         M.append(_c("Auer", "Test", eps=0.01, noise=0.1, contraction=8, empirical=True, max_steps=(15 if q else 40)))
         M.append(_c("NaiveElimination", "VVD2a", order=("orth", 2), eps=0.2, L=4))
+        # scripted posteriors: the acquisition values are the scripted variances / box diagonals, so that inactive members of P often
+        # have the largest value - the sampled design must still come from the active set
+        WS = {"orth": [[1, 0], [0, 1]], "acute": [[2, -1], [-1, 2]], "obtuse": [[2, 1], [1, 2]]}
+        for k in range(12 if q else 36):
+            o = ("Wint", WS[("orth", "acute", "obtuse")[k % 3]])
+            b = (1, 2, 3)[k % 3]
+            e = (0.5, 1.0, 2.0)[(k // 3) % 3]
+            M.append(_c("PaVeBaGP", "VVD2a", order=o, eps=e, type="IH", batch=b, script=dict(kind="rect", G=4), max_steps=20))
+            M.append(_c("PaVeBaPartialGP", "VVD2a", order=o, eps=e, batch=b, costs=[1, 2], budget=60, script=dict(kind="rect", G=4), max_steps=20))
+            if k < 8:
+                M.append(_c("VOGP", "VVD2a", order=o, eps=e, batch=b, script=dict(kind="rect", G=4), max_steps=20))
+                M.append(_c("EpsilonPAL", "VVD2a", eps=e, batch=b, script=dict(kind="rect", G=4), max_steps=20))
     rnd = random.Random(seed)
     out = []
     for k, c in enumerate(M):
         c = copy.deepcopy(c)
+        if c.get("script") and k % 2 == 1:
+            c["script"]["wander"] = True      # every other scripted run: posterior means drift, regions need not contain a fixed truth
         c["tid"] = k + 1
         c.setdefault("noise", 0.01)
         c.setdefault("max_steps", 60)
